@@ -380,6 +380,19 @@ def directed_cases():
                 lab = f"directed:chain-branch-behind-shared-name:{kind}:{'chain' if routes_to_chain else 'direct'}-taken:{'chain' if chain_first else 'direct'}-listed-first"
                 out.append((lab + ":graph-select", {"name": "shop", "nodes": copy.deepcopy(nodes), "bind": {}, "select": ["invoice"], "expect_selected": True}, None))
                 out.append((lab + ":runtime-select", {"name": "shop", "nodes": copy.deepcopy(nodes), "bind": {}, "expect_selected": True}, ["invoice"]))
+    # the producer of the selected output WAITS for a signal of a node it has no data edge from; that node has an
+    # input of its own. The selection keeps the emitter (it must run first), so its input stays required
+    for emitter_first in (True, False):
+        emitter = {"k": "fn", "name": "prep", "params": [{"n": "cfg"}], "outs": ["prepared"], "emit": ["ready"]}
+        waiter = {"k": "fn", "name": "main", "params": [{"n": "x"}], "outs": ["res"], "wait": ["ready"]}
+        tail = {"k": "fn", "name": "tail", "params": [{"n": "res"}], "outs": ["final"]}
+        other = {"k": "fn", "name": "other", "params": [{"n": "z"}], "outs": ["unrelated"]}
+        nodes = [emitter, waiter, tail, other] if emitter_first else [other, tail, waiter, emitter]
+        lab = f"directed:selected-output-behind-ordering-only-edge:{'emitter' if emitter_first else 'waiter'}-listed-first"
+        out.append((lab + ":graph-select", {"name": "ord", "nodes": copy.deepcopy(nodes), "bind": {}, "select": ["final"], "expect_selected": True}, None))
+        out.append((lab + ":runtime-select", {"name": "ord", "nodes": copy.deepcopy(nodes), "bind": {}, "expect_selected": True}, ["final"]))
+        inner = {"name": "ordin", "nodes": copy.deepcopy(nodes), "bind": {}, "select": ["final"]}
+        out.append((lab + ":nested-select", {"name": "outer", "nodes": [{"k": "sub", "name": "ordin", "prog": inner}, {"k": "fn", "name": "sink", "params": [{"n": "final"}], "outs": ["sunk"]}], "bind": {}, "select": ["sunk"], "expect_selected": True}, None))
     out.append(("directed:two-data-cycles-coupled-by-a-gate:reordered", {"name": "twocyc", "nodes": [copy.deepcopy(two[2]), copy.deepcopy(two[1]), copy.deepcopy(two[0])], "bind": {}, "int_inputs": True}, None))
     return out
 
